@@ -17,7 +17,9 @@ from ..session import Session, snap_get
 from ..findings import classify
 
 LEVEL = "exploration"
-RULE = ("case = metamorphic pair of programs with solve_order(a, b) (optionally a before b before c, a list of earlier "
+RULE = ("case = metamorphic pair of programs with solve_order(a, b) (optionally a before b before c - as a chain of two "
+        "statements or as three statements a-b, b-c, a-c in any order -, a and b each before c in two statements [only "
+        "starvation of a and b, constraints and exceptions are judged there], a list of earlier "
         "fields, the directive in a block of its own): same own-constraints on a, couplings a-b of different multiplicity "
         "(b<=a, b>=a, b!=a, if a==v: b==k else ..., a==v implies b in {..}, a+b<=max); each program is enumerated "
         "completely over the RandState choice points from a fresh object; non-trivial = both enumerations complete and the "
@@ -94,8 +96,10 @@ def judge_program(tag, prog, E, viol, cnt):
     ia = paths.index(("a",))
     if res["abort"] or not res["complete"]:
         cnt.inc("m3_incomplete")
+        cnt.inc("incomplete_" + prog.get("topo", "pair"))
         return None
     cnt.inc("m3_complete")
+    cnt.inc("complete_" + prog.get("topo", "pair"))
     raised = {k: v for k, v in res["dist"].items() if isinstance(k, tuple) and k and k[0] == "raised"}
     if raised:
         viol.append(("satisfiable-system-failed", "%s: %s of the choice paths of a satisfiable system (|S|=%d) raise %s\n%s" % (
@@ -117,9 +121,26 @@ def judge_program(tag, prog, E, viol, cnt):
                      "(feasible %s, marginal %s)\n%s" % (tag, res["paths"], starved, feas, {k: str(v) for k, v in sorted(marg.items())}, src),
                      {"starved_field": (("a",), E["call"].rand_leaves[ia][1]), "starved": starved, "feasible": feas,
                       "ranges": E["bounds"].get(("a",))}))
+    fanin = prog.get("topo") == "fanin"
+    if fanin and not raised:
+        # a before c and b before c: b is an earlier variable as well
+        ib_ = paths.index(("b",))
+        mb = {}
+        for k, v in res["dist"].items():
+            if k not in raised:
+                mb[k[ib_]] = mb.get(k[ib_], Fraction(0)) + v
+        feas_b = sorted(set(s[ib_] for s in sols))
+        cnt.inc("values_checked", len(feas_b))
+        starved_b = [v for v in feas_b if mb.get(v, 0) == 0]
+        if starved_b:
+            viol.append(("earlier-variable-value-starved", "%s: complete enumeration of %d paths: b never takes %s although feasible "
+                         "(feasible %s, marginal %s)\n%s" % (tag, res["paths"], starved_b, feas_b, {k: str(v) for k, v in sorted(mb.items())}, src),
+                         {"starved_field": (("b",), E["call"].rand_leaves[ib_][1]), "starved": starved_b, "feasible": feas_b,
+                          "ranges": E["bounds"].get(("b",))}))
     rl = E["bounds"].get(("a",))
     fills = False
-    if rl:
+    if rl and not fanin:
+        # (fan-in: a and b are chosen in the same step, so a's marginal may depend on b; only starvation is judged)
         inrange = sorted(v for v in range(0, 1 << 8) if any(lo <= v <= hi for lo, hi in rl))
         fills = (inrange == feas)
     if fills and not raised and not starved:
@@ -160,7 +181,9 @@ def exec_case(spec):
     if all(o is not None for o in out):
         a, b = out
         nontrivial = any(len(set(o["companions"].values())) > 1 for o in out)
-        if a["feas"] == b["feas"] and a["range"] == b["range"] and not a["raised"] and not b["raised"]:
+        if spec["progs"][0].get("topo") == "fanin":
+            cnt.inc("fanin_pairs")
+        elif a["feas"] == b["feas"] and a["range"] == b["range"] and not a["raised"] and not b["raised"]:
             cnt.inc("pairs_compared")
             if a["marg"] != b["marg"]:
                 viol.append(("marginal-depends-on-later-variable",
